@@ -1,4 +1,4 @@
 SPECIFICATION SpecM
-CONSTANTS MaxArgs = 1  Rich = TRUE  AllFlags = TRUE  Emit = TRUE  SingleAllFlags = TRUE  RichFlips = TRUE
+CONSTANTS MaxArgs = 1  Rich = FALSE  AllFlags = TRUE  Emit = TRUE  SingleAllFlags = TRUE  RichFlips = TRUE
 INVARIANTS Total Consumption StableThm ConsumeAgrees EmitMut Dialect
 CHECK_DEADLOCK FALSE
